@@ -875,7 +875,7 @@ def collect_stats(st: core.Stats, run: dict, out: dict):
     shape = core.digest([[o['op'] for o in ops] for ops in run['threads']])
     st.add('distinct', f"{out['digest']}")
     st.add('history_shapes', shape)
-    if len(st.samples) < 1 and (run['seed'] % 97) == 0:
+    if len(st.samples) < 1 and (run['seed'] % 5) == 0:
         st.samples.append({'seed': run['seed'], 'cfg': cfg,
                            'threads': [[_short(o) for o in ops] for ops in run['threads']],
                            'steps': out['steps'], 'switches': out['switches'],
